@@ -91,3 +91,34 @@ CLEAN_PARSE = Contract(
     frame=[], props=["C15"],
     assumes=["extracted block: the try statement around the clean graph parse; the loader is a seam"],
 )
+
+
+# ---------------------------------------------------------------- bridging of the per-worker subgraphs (C04, C09)
+from contracts.c16 import bridged_form, bridged_form_fn                                  # noqa: E402
+from contracts.node_edges import BRIDGE                                                  # noqa: E402
+from pyvc.contract import traced, contract_handler                                       # noqa: E402
+
+
+def bridging_pair_block(fn):
+    loops = [n for n in ast.walk(fn) if isinstance(n, ast.For) and isinstance(n.target, ast.Name) and n.target.id == "node2"]
+    return loops[0].body if len(loops) == 1 else []
+
+
+SAME_TEST = "(node1 != node2 and node1.bridged_form == node2.bridged_form)"
+BRIDGING_PAIR = Contract(
+    target=f"{INTERTEST}::update", name="update#bridging_pair", block=("bridging_pair", bridging_pair_block),
+    params={"node1": Ref("TestNode"), "node2": Ref("TestNode")},
+    requires=["'name' in node1.params and 'name' in node2.params"],
+    overrides={"TestNode.bridged_form": bridged_form, "TestNode.bridge_with_node": seam_handler("bridge", None)},
+    stubs={"TestNode.bridged_form": (bridged_form_fn, "TestNode", STR, "property")},
+    raises={"ValueError": f"{SAME_TEST} and (node1.prefix + '-' + node1.params['name']) == (node2.prefix + '-' + node2.params['name'])"},
+    ensures=[
+        # every pair of equivalent nodes of different workers gets bridged: the scan never stops early
+        ("scan_continues_over_all_nodes", "flow != 'break' and flow != 'return'"),
+        ("equivalent_pair_is_bridged", f"ite({SAME_TEST}, ghost('bridge.calls') == old(ghost('bridge.calls')) + 1 and "
+                                       f"ghost('bridge.arg0', Ref('TestNode')) == node1 and ghost('bridge.arg1', Ref('TestNode')) == node2, "
+                                       f"ghost('bridge.calls') == old(ghost('bridge.calls')))"),
+    ],
+    frame=[], props=["C04", "C09", "C15"],
+    assumes=["extracted block: body of the inner loop that bridges the nodes of the per-worker subgraphs in update()"],
+)
